@@ -791,4 +791,26 @@ def r07_s(ctx):
     ctx.include(c01.r01_13, "R07.S", ("sonic_number",), 15)
 
 
-RULES = [("R07.1", r07_1), ("R07.3", r07_3), ("R07.4", r07_4), ("R07.5", r07_5), ("R07.6", r07_6), ("R07.6b", r07_6b), ("R07.7", r07_7), ("R07.8", r07_8), ("R07.9", r07_9), ("R07.10", r07_10), ("R07.11", r07_11), ("R07.S", r07_s)]
+def r07_sx(ctx):
+    """R07.S on the other targets (the scalar digit accumulator and the NEON one replace the x86 one there): thorough tier"""
+    from . import c01
+    if ctx.tier != "thorough" or ctx.default_config != "native":
+        ctx.ob("R07.Sx", "cross-target", True, "", "cross-target interval run: thorough tier, once", nontrivial=False)
+        return
+    keep = ctx.default_config
+    for cfg in ("baseline", "aarch64", "nosimd"):
+        n0 = len(ctx.obligations)
+        ctx.default_config = cfg
+        try:
+            c01.r01_13(ctx, ("sonic_number",), 15)
+            r07_10(ctx)
+            r07_11(ctx)
+        finally:
+            ctx.default_config = keep
+        for o in ctx.obligations[n0:]:
+            o["key"] = f"{cfg}:{o['rule']}:{o['key']}"
+            o["rule"] = "R07.Sx"
+    ctx.violations = [o for o in ctx.obligations if not o["ok"]]
+
+
+RULES = [("R07.1", r07_1), ("R07.3", r07_3), ("R07.4", r07_4), ("R07.5", r07_5), ("R07.6", r07_6), ("R07.6b", r07_6b), ("R07.7", r07_7), ("R07.8", r07_8), ("R07.9", r07_9), ("R07.10", r07_10), ("R07.11", r07_11), ("R07.S", r07_s), ("R07.Sx", r07_sx)]
